@@ -694,6 +694,7 @@ class Eval:
         'core::num::checked_mul': lambda a, b: ('Some', a * b),
         'core::num::next_power_of_two': lambda a: 1 if a <= 1 else 1 << (a - 1).bit_length(),
         'alloc::vec::from_elem': lambda x, n: ('vec', x, n),
+        'core::convert::TryFrom::try_from': lambda x: ('Ok', x), 'core::convert::TryInto::try_into': lambda x: ('Ok', x),
     }
     # the crate's integer newtypes are transparent
     for _ty in ('StateID', 'PatternID', 'SmallIndex'):
